@@ -215,14 +215,16 @@ theorem trigger_lift (L : Lift R A HR h) (m : Machine) (t : Trigger)
       simp only [Bool.and_eq_true, beq_iff_eq] at he; exact he.1
     exact L.bind (activateInitial_lift L m t (okI he')) fun _ => L.pure _
   · split
-    · exact L.throw _
-    · rename_i s _
-      refine L.bind (tryCands_lift L m t _ (ok s)) fun r => ?_
-      split
-      · exact L.pure _
-      · split
+    · exact L.pure _
+    · split
+      · exact L.throw _
+      · rename_i s _
+        refine L.bind (tryCands_lift L m t _ (ok s)) fun r => ?_
+        split
         · exact L.pure _
-        · exact L.throw _
+        · split
+          · exact L.pure _
+          · exact L.throw _
 end
 
 end SMV
